@@ -986,12 +986,14 @@ func (c *Compiler) stmtRecover(s ast.Stmt) {
 				panic(&Unsupported{"reported error inside a nested construct header: " + fmt.Sprint(e)})
 			}
 			c.Reported = append(c.Reported, fmt.Sprint(e))
+			// the protocol of a real front end: the initialiser's own handler calls ResetInit (which restores the value
+			// declaration and the code block, not the operand stack) and re-raises; the statement-level handler then calls
+			// ResetStmt, which drops the operands of the abandoned statement
 			if c.inInit > init0 {
 				c.inInit = init0
 				c.cb.ResetInit()
-			} else {
-				c.cb.ResetStmt()
 			}
+			c.cb.ResetStmt()
 		}
 	}()
 	c.stmt(s)
